@@ -3,7 +3,9 @@ known-findings matcher, evidence writer and the verdict policy of DESIGN.md sect
 import json, os, re, shutil, subprocess, sys, tempfile, time, hashlib
 
 VERIF = os.path.dirname(os.path.dirname(os.path.abspath(__file__)))
-REPO = os.path.normpath(os.path.join(VERIF, '..', 'repo'))   # /repo for /verif; a sibling 'repo' in a scratch sandbox
+# /repo normally; a builder's scratch sandbox (/var/tmp/ws/<name>/{verif,repo}, see bin/mksandbox) uses its sibling copy
+_sib = os.path.normpath(os.path.join(VERIF, '..', 'repo'))
+REPO = _sib if (VERIF.startswith('/var/tmp/ws/') and os.path.isdir(_sib)) else '/repo'
 SPEC = os.path.join(VERIF, 'spec')
 HARNESS = os.path.join(VERIF, 'harness')
 BUILD = os.path.join(VERIF, '.build')
